@@ -446,11 +446,15 @@ for _k, _v in ADDENDA12.items():
 ADDENDA13 = {
     "C01": "Round 14: the truth of a call's result is taken under a test on the node's position only.",
     "C07": "Round 14: None in a membership list is translated with IS NULL / IS NOT NULL.",
+    "C10": "Round 14: STREAM-LAZY also judges the functions that hand a parameter on to the lazy wrapper.",
+    "C11": "Round 14: whether a nested match needs its type filter is decided from the pattern, not read from module-level state.",
     "C12": "Round 14: the truth of a call's result is taken under a test on the node's position only.",
+    "C13": "Round 14: STREAM-LAZY also judges the functions that hand a parameter on to the lazy wrapper (the instances of a domain-less variable are not read when let() runs).",
+    "C15": "Round 14: the inverse fact goes to the target's own field before the role taker's.",
     "C14": "Round 14: ID-MEMO covers class-level collections of the relation and descriptor classes.",
     "C18": "Round 14: the tag key is a reserved name.",
     "C19": "Round 14: the effect table has a row for find_spec; a library call on the tag without a row stops the analysis.",
-    "C20": "Round 14: shares REL-LIVE.",
+    "C20": "Round 14: shares REL-LIVE; STREAM-LAZY also judges the functions that hand a parameter on to the lazy wrapper.",
 }
 for _k, _v in ADDENDA13.items():
     CLAIMS[_k]["text"] = CLAIMS[_k]["text"].rstrip() + " " + _v
